@@ -355,7 +355,25 @@ class Source:
                     j = self.masked.find('|', i + 1)
                     if j < 0 or j >= hi:
                         break
-                    res.append(dict(start=i, params_end=j + 1))
+                    # extent of the closure body: a block, or an expression up to the next
+                    # `,` / closing bracket at depth 0
+                    b = j + 1
+                    while b < hi and self.masked[b] in ' \t\r\n':
+                        b += 1
+                    if self.masked[b] == '{':
+                        be = match_close(self.masked, b) + 1
+                        braced = True
+                    else:
+                        be = b
+                        while be < hi:
+                            ch = self.masked[be]
+                            if ch in '([{':
+                                be = match_close(self.masked, be)
+                            elif ch in ',)]}' or ch == ';':
+                                break
+                            be += 1
+                        braced = False
+                    res.append(dict(start=i, params_end=j + 1, body_start=b, body_end=be, braced=braced))
                     i = j + 1
                     continue
             i += 1
